@@ -718,6 +718,11 @@ type Schedule struct {
 	KV       string
 	Corpus   bool
 	Faults   map[int]string // arrival position -> commit|set|delete: that arrival meets a failing sorted.KeyValue
+	// ReindexLiveAt > 0: Index.Reindex on the running index after that many arrivals (blobs may be waiting)
+	ReindexLiveAt int
+	// Late: after Order, the running index is reindexed and restarted, and then these blobs (dependencies
+	// that were withheld so far) arrive
+	Late []int
 }
 
 // Hangs counts the ops that hit the watchdog; after MaxHangs of them no further case is run (each
@@ -824,6 +829,40 @@ func RunCase(r *hk.Run, s *Set, sc *Schedule, obsEvery bool) caseResult {
 		}
 		res.finalDump, res.finalPend = d, p
 	}
+	// reindexOp runs a Reindex and requires what the property says of it: the rows (missing| rows included)
+	// and the pending bookkeeping are those of before, since the blob set is the same.
+	reindexOp := func(name, when string) {
+		if hung || staleRows {
+			return
+		}
+		d0, p0 := op("dump"), op("pend")
+		out := op(name)
+		r.Hit("sched:" + name)
+		if strings.Contains(p0, "needs=b") {
+			r.Hit("sched:" + name + "-while-blobs-are-waiting")
+		}
+		want := "ok"
+		if len(s.Stuck(delivered)) > 0 {
+			want = "needed"
+		}
+		if hung {
+			return
+		}
+		if out != want {
+			r.Fail("c05-reindex-status", "Reindex status "+when, want, out, r.CaseOps())
+		}
+		d1, p1 := op("dump"), op("pend")
+		if hung {
+			return
+		}
+		if d0 != d1 {
+			r.Fail("c05-reindex-changes-rows", "the rows after "+name+" "+when+" differ from the rows before it (same blob set)", d0, d1, r.CaseOps())
+		}
+		if p0 != p1 {
+			r.Fail("c05-reindex-changes-pending", "needs/neededBy after "+name+" "+when+" differ from before", p0, p1, r.CaseOps())
+		}
+		observe("after " + name + " " + when)
+	}
 	if sc.SrcFirst {
 		for _, id := range s.Deliver {
 			op(fmt.Sprintf("src %d", id))
@@ -886,6 +925,9 @@ func RunCase(r *hk.Run, s *Set, sc *Schedule, obsEvery bool) caseResult {
 				check(fmt.Sprintf("after arrival %d", i+1))
 			}
 			observe(fmt.Sprintf("after arrival %d", i+1))
+			if sc.ReindexLiveAt == i+1 {
+				reindexOp("reindexlive", fmt.Sprintf("after arrival %d", i+1))
+			}
 			if sc.Restart == i+1 {
 				before := op("pend")
 				op("restart")
@@ -899,16 +941,27 @@ func RunCase(r *hk.Run, s *Set, sc *Schedule, obsEvery bool) caseResult {
 		}
 	}
 	if sc.Reindex {
-		out := op("reindex")
-		r.Hit("sched:reindex")
-		want := "ok"
-		if len(s.Stuck(delivered)) > 0 {
-			want = "needed"
+		reindexOp("reindex", "at the end")
+	}
+	if len(sc.Late) > 0 {
+		reindexOp("reindexlive", "before the restart")
+		before := op("pend")
+		op("restart")
+		after := op("pend")
+		r.Hit("sched:restart")
+		if before != after && !hung {
+			r.Fail("c05-restart-forgets-pending", "needs/neededBy after the restart that follows a Reindex differ from before", before, after, r.CaseOps())
 		}
-		if out != want && !hung {
-			r.Fail("c05-reindex-status", "Reindex status", want, out, r.CaseOps())
+		for _, id := range sc.Late {
+			op(fmt.Sprintf("src %d", id))
+			if out := op(fmt.Sprintf("recv %d", id)); out != "ok" && out != "hang" {
+				r.Fail("c05-receive-error", fmt.Sprintf("ReceiveBlob of b%d reported an error", id), "ok", out, r.CaseOps())
+			}
+			delivered[id] = true
+			check(fmt.Sprintf("after the late arrival of b%d", id))
+			observe(fmt.Sprintf("after the late arrival of b%d", id))
+			r.Hit("sched:dependency-arrives-after-reindex-and-restart")
 		}
-		observe("after Reindex")
 	}
 	if sc.SrcFirst && sc.Par == nil && !sc.Reindex {
 		// every dependency was in the source all along
@@ -1018,6 +1071,45 @@ func Explore(r *hk.Run, s *Set, obs bool, maxPerm int, extra int) {
 		sc := &Schedule{Label: "srcfirst " + idsTok(o), Order: o, SrcFirst: true, Restart: -1, KV: "mem", Corpus: corpus}
 		compare(sc.Label, RunCase(r, s, sc, obs))
 		r.Hit("sched:source-first")
+	}
+	// Reindex on the running index in the middle of a delivery (blobs may be waiting), and at its end
+	for j := 0; j < extra; j++ {
+		o := orders[r.R.Intn(len(orders))]
+		sc := &Schedule{Label: "reindexlive " + idsTok(o), Order: o, Restart: -1, ReindexLiveAt: 1 + r.R.Intn(n), Steps: true, KV: kvOf(j + 3), Corpus: corpus}
+		if r.R.Chance(40) && sc.ReindexLiveAt < n {
+			sc.Restart = sc.ReindexLiveAt + 1
+		}
+		compare(sc.Label, RunCase(r, s, sc, obs))
+	}
+	// withheld dependencies: Reindex of the running index while blobs wait, restart, then the dependencies arrive
+	if len(s.Deliver) < len(s.Specs) {
+		in := map[int]bool{}
+		for _, id := range s.Deliver {
+			in[id] = true
+		}
+		var late []int
+		for _, sp := range s.Specs {
+			if !in[sp.ID] {
+				late = append(late, sp.ID)
+			}
+		}
+		all := append(append([]int(nil), s.Deliver...), late...)
+		refAll := RunCase(r, s, &Schedule{Label: "all-arrived " + idsTok(all), Order: all, Restart: -1, Steps: true, KV: "mem", Corpus: corpus}, obs)
+		for j := 0; j < extra; j++ {
+			o := orders[r.R.Intn(len(orders))]
+			sc := &Schedule{Label: "reindex-restart-late " + idsTok(o), Order: o, Restart: -1, Steps: true, KV: kvOf(j), Corpus: corpus, Late: late}
+			got := RunCase(r, s, sc, obs)
+			if got.finalDump != "hang" && refAll.finalDump != "hang" {
+				if got.finalDump != refAll.finalDump {
+					r.Fail("c05-waiting-blob-not-indexed-after-reindex-restart", "after Reindex, restart and the arrival of the withheld blobs the rows differ from those of delivering everything",
+						refAll.finalDump, got.finalDump, r.CaseOps())
+				}
+				if got.finalPend != refAll.finalPend {
+					r.Fail("c05-pending-depends-on-schedule", "after Reindex, restart and the arrival of the withheld blobs needs/neededBy differ from those of delivering everything",
+						refAll.finalPend, got.finalPend, r.CaseOps())
+				}
+			}
+		}
 	}
 	// transient failures of the index's sorted.KeyValue at one or two arrivals
 	for j := 0; j < extra*2; j++ {
